@@ -241,7 +241,8 @@ func c03CheckInvariant(vs *VoteSet, n int, powers []int64) {
 	}
 }
 
-// History of k arbitrary AddVote / SetPeerMaj23 calls from the empty set; after each
+// History of k arbitrary AddVote / SetPeerMaj23 calls from the empty set (or from a recorded
+// equivocation); after each
 // the representation invariant holds, errors have the documented class, majority is
 // reported for at most one block id, and a reported majority makes a commit that
 // VerifyCommit accepts.
@@ -253,7 +254,7 @@ func H_C03_voteset_history() {
 	if verifThorough() {
 		ntyp = 2 // prevote sets too
 	}
-	sel := verifCase(ntyp * 4)
+	sel := verifCase(ntyp * 5)
 	typ := VoteTypePrecommit
 	if sel%ntyp == 1 {
 		typ = VoteTypePrevote
@@ -278,6 +279,22 @@ func H_C03_voteset_history() {
 		}
 	case 3:
 		_ = vs.SetPeerMaj23("peer0", c03BlockID())
+	case 4:
+		// an equivocation already on record: a validator's vote, a peer's majority claim for another
+		// block, and that validator's conflicting vote for the claimed block (kept in the claimed
+		// block's tally only) - re-deliveries and further votes start from here
+		first := c03GoodVote(n, height, round, typ)
+		added, err := vs.AddVote(first)
+		verifAssert(added && err == nil, "well-formed-signed-vote-is-accepted")
+		claimed := c03BlockID()
+		verifAssume(!claimed.Equals(first.BlockID))
+		_ = vs.SetPeerMaj23("peer0", claimed)
+		second := &Vote{ValidatorAddress: first.ValidatorAddress, ValidatorIndex: first.ValidatorIndex, ValidatorSize: n,
+			Height: height, Round: round, Type: typ, BlockID: claimed, Signature: c03Sig()}
+		verifAssume(c03SigOK(first.ValidatorIndex, c03Chain, second))
+		added, err = vs.AddVote(second)
+		_, isConflict := err.(*ErrVoteConflictingVotes)
+		verifAssert(added && isConflict, "conflicting-vote-for-a-claimed-block-is-kept-as-evidence")
 	}
 	var firstMaj *BlockID
 	if vs.maj23 != nil {
